@@ -13,6 +13,7 @@ Oracle: the function denoted by an expression is evaluated pointwise on the trut
 term dicts, python arithmetic on the numbers); its unique multilinear form is obtained from the truth table by the
 Moebius (boolean) / Walsh-Hadamard (spin) transform, never by polynomial arithmetic on term dicts.
 """
+import itertools
 import sys
 
 from .common import (clause, Fail, Skip, COEFS, BOOL_TYPES, SPIN_TYPES, MATRIX_TYPES, DEG2_TYPES,
@@ -635,6 +636,42 @@ def check_trees(case):
     Trees in which a degree-2-typed subexpression has a term of degree > 2 must raise KeyError. Non-trivial: nested
     and non-constant."""
     return _check_expr(case, check_type=True)
+
+
+NUM_LBL = [1, 2.5, 0, -0.5]      # numeric labels of two types: native `<` and ordering_key disagree on them
+
+
+def _gen_mixed_numeric(ctx):
+    # the same monomial written with its labels in either order, for every labelled model type
+    for spin in (False, True):
+        for T in _types(spin):
+            if T in MATRIX_TYPES:
+                continue
+            for a, b in itertools.permutations(NUM_LBL, 2):
+                for op in ("+", "-", "*"):
+                    yield {"kind": _kind(spin), "expr": (op, ("m", T, {(a, b): 3, (a,): 1}), ("m", T, {(b, a): 3, (b,): -2}))}
+    rng = ctx.rng("c05.numlabels")
+    n = ctx.pick(25, 600)
+    for spin in (False, True):
+        kinds = [t for t in _types(spin) if t not in MATRIX_TYPES] + ["dict"]
+        for lk in kinds:
+            for rk in kinds:
+                if lk == "dict" and rk == "dict":
+                    continue
+                for op in ("+", "-", "*"):
+                    for _ in range(n // 5 + 1):
+                        labels = rng.sample(NUM_LBL, rng.choice([2, 3]))
+                        yield {"kind": _kind(spin), "expr": (op, _operand(rng, lk, labels, spin, maxlen=2, max_terms=2),
+                                                             _operand(rng, rk, labels, spin, maxlen=2, max_terms=2))}
+
+
+@clause("C05.mixed_numeric_labels", "C05", gen=_gen_mixed_numeric, nontrivial=_nonconstant)
+def check_mixed_numeric(case):
+    """the arithmetic contract of C05.add_sub / C05.mul over labels that are numbers of different types (int and
+    float), where Python's native order and qubovert's ordering_key disagree: the same monomial written with its
+    labels in either order must land under one canonical key (sorted per ordering_key), so that models denoting
+    the same function compare equal. Non-trivial: result is non-constant."""
+    return _check_expr(case)
 
 
 # ---------------------------------------------------------------------------------------------
